@@ -3,8 +3,13 @@
 package htx
 
 import (
+	"strconv"
+
 	"github.com/ethereum/go-ethereum/common"
 	ethcrypto "github.com/ethereum/go-ethereum/crypto"
 )
 
 func createdAddress(nonce uint64) common.Address { return ethcrypto.CreateAddress(SenderAddr, nonce) }
+
+func itoa(i int) string    { return strconv.Itoa(i) }
+func utoa(u uint64) string { return strconv.FormatUint(u, 10) }
